@@ -45,6 +45,11 @@ def main(argv):
         print(f"VIOLATION property={prop} replay={p} no-failing-input-found")
         return 1
     pinfo = runner.proof_leg(prop)
+    if tier == "thorough" and not replay and pinfo.get("ok"):
+        pinfo["coqchk"] = runner.coqchk_leg(prop)
+        if not pinfo["coqchk"]["ok"]:
+            pinfo["ok"] = False
+            pinfo["problems"].append("coqchk did not confirm the compiled closure axiom-free: " + pinfo["coqchk"]["summary"][-300:])
 
     if replay:
         return do_replay(prop, mod, replay)
@@ -69,10 +74,16 @@ def main(argv):
             parts.append(runner.run_slice(sl, seed, 0, tier, 1, cases=corpus))
         ex = getattr(sl, "exhaustive", None)
         b = budget.get(sl.name, 0)
+        extra_random = 0
+        if isinstance(b, (list, tuple)):         # ("exhaustive", n): the enumeration plus n random cases
+            extra_random = b[1]
+            b = b[0]
         if ex is not None and b == "exhaustive":
-            cases = list(ex(tier))
+            cases = list(ex(tier) or [])
             parts.append(runner.run_slice(sl, seed, 0, tier, procs, cases=cases))
-            rep["exhaustive"] = True
+            rep["exhaustive"] = extra_random == 0
+            if extra_random:
+                parts.append(runner.run_slice(sl, seed, extra_random, tier, procs))
         elif isinstance(b, int) and b > 0:
             parts.append(runner.run_slice(sl, seed, b, tier, procs))
         keys, ntk = set(), set()
@@ -181,6 +192,7 @@ def write_evidence(prop, tier, seed, mod, pinfo, slices, slice_reports, violatio
         "theorems": (pinfo or {}).get("theorems", []),
         "print_assumptions": (pinfo or {}).get("assumptions", "")[-6000:],
         "proof_leg_problems": (pinfo or {}).get("problems", []),
+        "coqchk": (pinfo or {}).get("coqchk", {"ran": False, "note": "coqchk runs in the thorough tier only"}),
         "evaluations": evals,
         "distinct_nontrivial": distinct,
         "rule": getattr(mod, "RULE", ""),
